@@ -89,6 +89,7 @@ def gen_world(rng, opts):
     env = specs.Env(rng, max_T=48)
     env.allow_date_only_zone = True
     env.coarse_p = 0.35
+    env.ramp_p = 0.3
     w = env.world
     g0 = specs.gen_grid(env)
     n_g = rng.choice([2, 2, 3])
